@@ -742,6 +742,8 @@ def check_r5(facts, rep, crate):
                 tails.append(recv)
             for tl in tails:
                 ti = strip(tl[3][1]) if len(tl[3]) > 1 else None
+                if ti is not None and ti.kind == "agg" and "RangeFrom" in str(ti[2]):
+                    ti = strip(dict(ti[3]).get("start"))       # drain(i + 1..) = split_off(i + 1)
                 good = hidx is not None and ti is not None and ti.kind == "bin" and ti[1] == "Add" and \
                     ((strip(ti[2]) == hidx and const_eval(ti[3]) == 1) or (strip(ti[3]) == hidx and const_eval(ti[2]) == 1))
                 if good:
